@@ -14,6 +14,9 @@ func (m *Manager) AggregationLoop(ctx context.Context, errCh chan<- error) {
 		m.logger.Error("error while getting store height", "error", err)
 		return
 	}
+	if height >= initialHeight {
+		m.rebroadcastLastBlock(ctx, height)
+	}
 	var delay time.Duration
 
 	if height < initialHeight {
@@ -138,4 +141,39 @@ func getRemainingSleep(start time.Time, interval time.Duration) time.Duration {
 	}
 
 	return time.Millisecond
+}
+
+// rebroadcastLastBlock hands the last committed block to the P2P stores if its broadcast was cut short: a block is
+// committed before it is broadcast, and a node stopped in between comes back with P2P stores that end one height below
+// the chain. Those stores only take the next height, so without this every later block would fail to broadcast.
+func (m *Manager) rebroadcastLastBlock(ctx context.Context, height uint64) {
+	if m.headerStore == nil || m.dataStore == nil {
+		return
+	}
+	// (Head reads the persisted head; the stores' height counters are only filled in once the head has been read)
+	missingHeader, missingData := false, false
+	if head, err := m.headerStore.Head(ctx); err == nil {
+		missingHeader = head.Height()+1 == height
+	}
+	if head, err := m.dataStore.Head(ctx); err == nil {
+		missingData = head.Height()+1 == height
+	}
+	if !missingHeader && !missingData {
+		return
+	}
+	header, data, err := m.store.GetBlockData(ctx, height)
+	if err != nil {
+		m.logger.Error("cannot read the last block for re-broadcast", "height", height, "error", err)
+		return
+	}
+	if missingHeader {
+		if err := m.headerStore.Append(ctx, header); err != nil {
+			m.logger.Error("cannot hand the last header to the P2P store", "height", height, "error", err)
+		}
+	}
+	if missingData {
+		if err := m.dataStore.Append(ctx, data); err != nil {
+			m.logger.Error("cannot hand the last data to the P2P store", "height", height, "error", err)
+		}
+	}
 }
